@@ -48,7 +48,7 @@ Fixpoint all2 {A C} (f : A -> C -> bool) (a : list A) (b : list C) : bool :=
   | _, _ => false
   end.
 
-Definition corr (k : case) : bool :=
+Definition corr_model (k : case) : bool :=
   match k with
   | Case cw cr t lvl slen scap wclass blocks =>
     let datas := mapi (fun j o => nlist (fun i => TD (Uint63.add i (blk_base j))) (o_dlen o)) 0 blocks in
@@ -73,6 +73,30 @@ Definition corr (k : case) : bool :=
                  | Panic => (o_rclass o =? 2)%N
                  end) (mapi (fun j d => (j, d)) 0 datas) blocks
     end
+  end.
+
+(* Cases containing a block above GoProbe.C07.Corr.big_threshold are not executed on token lists; the model's
+   answer is taken from its PROVED closed form (GoProbe.C02.Proofs.write_block_ok / read_stored, valid for every
+   size under codec_ok + formats_agree, which the symbolic table meets when 1 <= frame length <= bound): every
+   write succeeds; an empty block is recorded as (Null, 0); a block is stored under the file's encoder iff its
+   frame is not longer than the data (then 1 <= len <= raw), otherwise raw under the null encoder (len = raw);
+   every block reads back exactly under every configuration. *)
+Definition corr_closed (k : case) : bool :=
+  match k with
+  | Case cw cr t lvl slen scap wclass blocks =>
+    (wclass =? 0)%N
+    && forallb (fun o =>
+                  (o_rclass o =? 0)%N && o_req o
+                  && (if (o_dlen o =? 0)%N then enct_eqb (o_enc o) ENull && (o_len o =? 0)%N
+                      else if enct_eqb (o_enc o) ENull then (o_len o =? o_dlen o)%N
+                      else enct_eqb (o_enc o) t && (1 <=? o_len o)%N && (o_len o <=? o_dlen o)%N)) blocks
+  end.
+
+Definition corr (k : case) : bool :=
+  match k with
+  | Case _ _ _ _ _ scap _ blocks =>
+    if existsb (fun o => (big_threshold <? o_dlen o)%N) blocks || (big_threshold <? scap)%N
+    then corr_closed k else corr_model k
   end.
 
 (* the specification, on the observations only: the writer build stored every block and the reader build read
